@@ -169,7 +169,7 @@ def r12_1(ctx):
                 D.closure(root[1][2][0])
                 matched = len(st)
                 for x in D.visited:
-                    if is_call(x, 'iter_mut') and len(x[2]) == 1:
+                    if is_call(x, 'iter_mut', 'IntoIterator::into_iter') and len(x[2]) == 1:
                         sl = strip_all(x[2][0])
                         while sl[0] in ('deref', 'ref'):
                             sl = strip_all(sl[1])
